@@ -26,8 +26,18 @@ impl Entry for E {
 fn run_case(out: &mut impl Write, cap: u64, es: &[E]) {
     let input: Vec<E> = es.to_vec();
     let capu: usize = if cap > usize::MAX as u64 { usize::MAX } else { cap as usize };
+    // the planner takes any collection of entries: feed it through iterators of different shapes
+    // (exact size hint; no upper bound; a lower bound of zero) - the plan must not depend on it
+    let shape = (es.len() + (cap as usize % 7)) % 3;
     let res = std::panic::catch_unwind(move || {
-        let u = Update::new(input, capu);
+        let u = match shape {
+            0 => Update::new(input, capu),
+            1 => {
+                let mut it = input.into_iter();
+                Update::new(std::iter::from_fn(move || it.next()), capu)
+            }
+            _ => Update::new(input.into_iter().filter(|_| true), capu),
+        };
         (u.to_evict, u.to_move_back)
     });
     let mut line = String::with_capacity(64 + es.len() * 8);
